@@ -22,17 +22,17 @@ CLAIMED = {
             "C08_match_is_spec, C08_branch_choice_is_spec, C08_record_guard_consistent, C08_identity (+_code_partial), C08_error_* (no default, not promotable, unknown symbol, fixed size, name mismatch, kind, no branch, items), "
             "C08_enum_default, C08_old_code_refuted_* (8 witnesses on which the code before the repairs left the specification; model/ResolveOld.v). Tie: implementation vs rdec AND vs resolve on "
             "(writer, 1..6 evolution steps, datum) through both reading routes; the hand-written witnesses of every repaired defect stay as regression cases.",
-            "PARTIAL: two zone theorems (inline schemas incl. dict-form primitives: C08_factor_zone_partial; by-name references incl. recursive types: C08_factor_zone_refs_partial, conditions followed to the depth of the value), both for ANY reader options (return_record_name / return_named_type and overrides: the specification `resolve o` wraps union values by wrap_spec, proved equal to the code's wrapping), cover 100 % of the generated evaluations; outside them (logicalType annotations on non-primitive types, nested unions - not generated) the statement is decided by the correspondence against `resolve`. F6, F7, F30, F31 and the earlier C08 defects are repaired in /repo (fix: commits).", "§3 C08"),
+            "PARTIAL: two zone theorems (inline schemas incl. dict-form primitives: C08_factor_zone_partial; by-name references incl. recursive types: C08_factor_zone_refs_any_height_partial, values of ANY height under the computable closed-set certificate `agree_all` (C08_zone_closed_set; depth-indexed form `agreen k` kept, monotone in k: C08_zone_depth_monotone); reader == writer through the code also with references / recursive types (C08_identity_code_refs_partial, _any_height_partial; Example: linked list of any length)), both for ANY reader options (return_record_name / return_named_type and overrides: the specification `resolve o` wraps union values by wrap_spec, proved equal to the code's wrapping), cover 100 % of the generated evaluations; outside them (logicalType annotations on non-primitive types, nested unions are no Avro schemas (spec: unions may not immediately contain unions; C08_no_union_behind_reference: no union is reached through a reference)) the statement is decided by the correspondence against `resolve`. F6, F7, F30, F31 and the earlier C08 defects are repaired in /repo (fix: commits).", "§3 C08"),
     "C09": ("Rocq proof about the writer's union branch search as a function: chosen branch conforms, tuple and '-type' hints select exactly the named branch (error when none), first conforming non-record branch, float defers to double, most shared fields first on ties; union indices and named-type reporting vs the model + the statement evaluated on the written index",
             "Theorems (coq/props/C09.v, 13): C09_conforming, C09_function, C09_tuple_hint, C09_type_hint (+_validate), C09_first_nonrecord, C09_float_defers_to_double, C09_double_chosen, "
             "C09_most_fields_first_on_tie, C09_search_spec, C09_no_branch, C09_closure_partial. Tie: union index written by fastavro vs the model's elab on unions of primitive mixes, several "
             "records, enums/fixed, references, arrays/maps, nested hints x {no hint, tuple, -type} x disable_tuple_notation; the four reader options; closure (read with names, write back: same bytes).",
-            "C09_closure / C09_closure_bytes / C09_closure_written: every well-typed wire value (in particular whatever the writer wrote) read with return_named_type=True and written back under the same schema gives the identical bytes, under the boolean side condition closb (named union branches: first of their name with tuple notation on; unnamed branches: the read-back value re-resolves to the same branch; float leaves stable under single->double->single, enum index = first occurrence, distinct map keys / field names); closb is evaluated in-model on every case and cross-checked against model and implementation (C09_closure_refuted = an instance with closb false, outside the statement). F13 ([Rec, map] with a dict fitting both goes to the map branch) is left open by the statement: observation only.", "§3 C09"),
+            "C09_closure / C09_closure_bytes / C09_closure_written: every well-typed wire value (in particular whatever the writer wrote) read with return_named_type=True and written back under the same schema gives the identical bytes, under the boolean side condition closb (named union branches: first of their name with tuple notation on; unnamed branches: the read-back value re-resolves to the same branch; enum index = first occurrence, distinct map keys / field names) and floats_stable; floats_stable is derived for every written value (elab_floats_stable over FloatProofs.d2s_image_stable), so C09_closure_written has no float hypothesis; closb is evaluated in-model on every case and cross-checked against model and implementation (C09_closure_refuted = an instance with closb false, outside the statement). F13 ([Rec, map] with a dict fitting both goes to the map branch) is left open by the statement: observation only.", "§3 C09"),
     "C10": ("Rocq proof: validate returns True exactly on the declarative conformance relation (clause by clause from the documented mapping), raises exactly where it would answer False, strict rule, accepted => elaborated => round trip under an explicit writer-domain condition; validate / validate_many / validating writers vs the model on conforming and singly-mutated data",
             "Theorems (coq/props/C10.v, 13): C10_iff, C10_sound, C10_complete, C10_raise_agrees, C10_raise_iff, C10_strict, C10_fuel_monotone, C10_gate, C10_accepted_typed, C10_absent_field_agrees, "
             "C10_writer_accepts_iff, C10_encoded_needs, C10_accepted_roundtrip, C10_writer_accepts_refuted (witnesses for each clause of wneed: foreign exception in a later branch, strict writer, float overflow), C10_gate_* (5). "
             "Tie: 12 mutation kinds x raise_errors x strict x disable_tuple_notation, validate_many, accepted => written and read back, rejected => validating writer raises with the stream unchanged, strict writers.",
-            "C10_gate, C10_gate_raises, C10_gate_nonconforming, C10_gate_history, C10_gate_only_validated: for the Python-level writer model (ContainerPy.pstep) a validating writer rejects exactly what validate rejects with the writer state (stream, pending block, count) unchanged, and a history with a rejected write equals the history without it; the model's tie to fastavro's Writer is the correspondence (corr:validate-vs-writer; C04-C07). C10_writer_accepts_iff: for every datum validate accepts, the writer (default, strict or strict_allow_default) elaborates it iff wneed holds (numbers convert; strict writers' field discipline; the branch search answers and the datum is writable under the branch it answers); necessity (C10_encoded_needs) holds for all data. floats_ok of the elaborated value is derived (proofs/ElabFloats.v over FloatProofs.v: Reals axioms + classic, allow-listed) from pyfloats_ok of the input, which is an evaluated hypothesis about the abstraction.", "§3 C10"),
+            "C10_gate, C10_gate_raises, C10_gate_nonconforming, C10_gate_history, C10_gate_only_validated: for the Python-level writer model (ContainerPy.pstep) a validating writer rejects exactly what validate rejects with the writer state (stream, pending block, count) unchanged, and a history with a rejected write equals the history without it; the model's tie to fastavro's Writer is the correspondence (corr:validate-vs-writer; C04-C07). C10_writer_accepts_iff: for every datum validate accepts, the writer (default, strict or strict_allow_default) elaborates it iff wneed holds (numbers convert; strict writers' field discipline; the branch search answers and the datum is writable under the branch it answers); necessity (C10_encoded_needs) holds for all data. C10_only_validation_error / C10_raise_only_validation_error / C10_search_no_foreign_exception: for schemas whose references resolve (closed_refs, closed_env; evaluated in-model) validate and the writers' branch search raise no exception other than ValidationError. floats_ok of the elaborated value is derived (proofs/ElabFloats.v over FloatProofs.v: Reals axioms + classic, allow-listed) from pyfloats_ok of the input, which is an evaluated hypothesis about the abstraction.", "§3 C10"),
     "C11": ("Rocq proof about a faithful model of parse_schema: full names per the spec's namespace rules, references denote table entries with that name, every rejection kind of the statement (exact error at the node and 'never accepted at any depth'), acceptance of every valid_raw schema; model vs fastavro.parse_schema on generated valid and singly-mutated schemas",
             "Theorems (coq/props/C11.v, ~39): C11_fullnames, C11_refs/C11_refs_denote, C11_rejects_* (undefined reference, duplicate name incl. top-level unions, missing name, malformed/duplicate symbol, "
             "enum default, default of wrong JSON type for primitives / dict forms / unions / references, decimal precision/scale), C11_accepts (valid_raw => accepted, no size bound). "
@@ -46,7 +46,7 @@ CLAIMED = {
     "C13": ("Rocq proof: canonical form of the parsed schema = the specification's transformation applied to the raw JSON (C13_spec), invariance under the inductive closure of cosmetic edits, JSON-level fixed point; model and independent pcf vs to_parsing_canonical_form incl. Apache vectors",
             "Theorems (coq/props/C13.v): C13_spec (all simple_raw schemas incl. top-level unions), C13_cosmetic (+ instances), C13_fixed_point_json, C13_fixed_point (unconditional in the classes simple_raw + ns_closed; outside ns_closed it is false: C13_fixed_point_refuted / K2), C13_canonical_json_simple, 11 Apache vectors by vm_compute. "
             "Tie: canon.parse (model) = pcf (model) = implementation on generated schemas and cosmetic rewrites; fixed point through json.loads.",
-            "Known finding K2 (nested null-namespace type: the spec's canonical form is not a fixed point) is reported as KNOWN-FINDING. C13_same_encoding is decided by the correspondence of C12/C01, not proved.", "§3 C13"),
+            "Known finding K2 (nested null-namespace type: the spec's canonical form is not a fixed point) is reported as KNOWN-FINDING. C13_same_encoding proved for all values over model/Codec.v through model/Bridge.v (C13_same_encoding, _wire, C13_same_decoding, C13_table_of_canon): raw schemas in simple_raw with the same canonical JSON, parsed from scratch, type the same values, whose (schema-independent) encoding decodes to the same value under both, and decode arbitrary bytes alike; exercised on the implementation on (schema, cosmetic rewrite) pairs (thm:same-encoding-impl). Canonical forms are compared as JSON values, not printed text.", "§3 C13"),
     "C14": ("Rocq proof: table-driven CRC-64-AVRO loop = bit-serial spec for all byte strings; correspondence by vm_compute vs fastavro.schema.fingerprint",
             "Theorems (coq/props/C14.v): the fp_table entries are 8 division steps (finite, vm_compute), the table-driven loop equals the "
             "specification's bit-serial Rabin fingerprint for every byte list of any length, 64-bit state invariant, empty text = seed, "
@@ -123,7 +123,7 @@ CLAIMED = {
             "instances (diamond, two depths with a namespace-relative reference, missing file). Tie: random acyclic graphs (1-8 types, 1-3 namespaces incl. the null one): load_schema, every "
             "dependencies-first load_schema_ordered order, and parse of the inlined-at-first-use schema must have equal canonical forms and equal encodings of generated data; each single "
             "file removed must raise UnknownType naming it; the model is compared on all of these.",
-            "PARTIAL: the general C19_equiv / C19_ordered / C19_inline_closed (all DAGs) are stated in comments and decided by the correspondence; the file system (FlatDictRepository) is abstracted to a name -> JSON map.", "§3 C19"),
+            "PARTIAL: C19_equiv / C19_ordered / C19_inline_closed in general are decided by the correspondence on every generated graph; proved: first-try case, the error path including WHICH name UnknownType carries (C19_first_unknown: the first reference in document order that is neither primitive nor in the dictionary, everything before it accepted), every result is a parse result, evaluated instances; the effect of inlining separately loaded types is C12_piecewise. Missing: the composition over the loader's retry loop (_inject_schema's position, acceptance of the re-parse, nested loads). The file system (FlatDictRepository) is abstracted to a name -> JSON map.", "§3 C19"),
     "C20": ("Rocq proof: for every wf schema (recursive ones included) and EVERY random stream a generated value validates (never False, never an exception), count = n, readable ranges of logical leaves, termination for ranked schemas and refutation for recursion through arrays/maps; generate_many replayed on recorded draws vs the model + validate/write/read predicate",
             "Theorems (coq/props/C20.v, 18): C20_count, C20_generate_one, C20_conforms (+_many, _ranked, _fuel), C20_leaf_shape, C20_readable_*, C20_terminates_ranked, C20_refuted_rec_array. "
             "Tie: fastavro.utils.random / uuid replaced from outside by recording proxies; values of generate_many compared with the model's gen on the recorded stream; every value "
